@@ -62,7 +62,10 @@ PROPS = {
         'runs': [{'name': 'store', 'harness': ['store'], 'driver': ['store', 'C06']},
                  {'name': 'inrange', 'harness': ['inrange'], 'driver': ['inrange']},
                  # the third site the statement names (gossip targets): the relation of C20 on the real GossipAndReturnPeers
-                 {'name': 'gossipsite', 'harness': ['gossip'], 'driver': ['C20']}],
+                 {'name': 'gossipsite', 'harness': ['gossip'], 'driver': ['C20']},
+                 # the first site the statement names (offer filtering): the verdicts of the real handleOffer, both wire versions,
+                 # nodes with no slots / plenty / a full validation queue (the relation of C09)
+                 {'name': 'offersite', 'harness': ['offer'], 'driver': ['C09']}],
         'rule': 'store histories as C04/C05 with adversarial ids (tiny distance in one byte order, huge in the other); in-range triples: '
                 'random, window of +-2 around the distance, around every power of two, radii below 600 and the maximum; non-trivial = '
                 'non-empty store / every triple; distinct = distinct lines'
@@ -78,7 +81,8 @@ PROPS = {
         'lean_targets': ['Shisui.Props.C19', 'Shisui.Inst.C19'],
         'min_obligations': 7,
         'runs': [{'name': 'versions', 'harness': ['C19'], 'driver': ['C19']},
-                 {'name': 'transfer', 'harness': ['transfer', 'framing'], 'driver': ['C08'], 'timeout': 1200}],
+                 {'name': 'transfer', 'harness': ['transfer', 'framing'], 'driver': ['C08'], 'timeout': 1200},
+                 {'name': 'offerafterfail', 'harness': ['offerafterfail'], 'driver': ['C19'], 'timeout': 600}],
         'rule': 'findBiggestSameNumber on ALL pairs of lists of length 0..3 over {0,1,2} (1600 pairs, exhaustive for that domain) and random '
                 'lists over 0..255; getOrStoreHighestVersion call histories of 1..3 calls on a fresh cache for every own-list x peer '
                 'advertisement (every short list, missing entry, undecodable entry) and random ones; non-trivial = both lists non-empty; '
